@@ -111,18 +111,32 @@ def _tokens(src):
     return toks
 
 
+# spellings of integer types whose width and signedness are probed with the compiler through Base.hpp
+INT_TYPES = ["int8", "uint8", "int16", "uint16", "int32", "uint32", "int64", "uint64", "usize", "ssize", "byte", "uchar", "uint",
+             "char", "signed char", "unsigned char", "short", "unsigned short", "short int", "unsigned short int", "int",
+             "unsigned", "unsigned int", "long", "unsigned long", "long int", "unsigned long int", "long long",
+             "unsigned long long", "long long int", "unsigned long long int"]
+TYPE_WORDS = {w for t in INT_TYPES for w in t.split()}
+
+
 class _Expr:
-    """C expression over usize -> Lean term.  Everything is unsigned arithmetic of the width of usize; `leaf` turns an
-    identifier / postfix form into a Lean term or refuses.  Precedence as in C (| ^ & == != << >> + - * / %)."""
+    """C expression -> Lean term, with the C type of every sub-expression.  A value is (term, type): type = (bits, signed)
+    of an integer type (the term is its bit pattern), "lit" for a literal / comparison result, "ptr" for the pointer
+    parameter.  Understood: casts between integer types in all three spellings (`(T)e`, `static_cast<T>(e)`, `T(e)`;
+    `reinterpret_cast` / C cast of the pointer to an integer of pointer width), parentheses, `sizeof(T)`, literals, and
+    the binary operators when the usual arithmetic conversions make the operation one in usize (an operand of type
+    usize or of an unsigned type of the same width; the other operand is converted to it: sign / zero extension).
+    Refused: arithmetic in narrower types (int promotion, signed overflow), anything `leaf` does not know.
+    Precedence as in C (| ^ & == != << >> + - * / %)."""
     LEVELS = [["|"], ["^"], ["&"], ["==", "!="], ["<<", ">>"], ["+", "-"], ["*", "/", "%"]]
     FN = {"|": "uor", "^": "uxor", "&": "uand", "<<": "ushl", ">>": "ushr", "+": "uadd", "-": "usub", "*": "umul",
           "/": "udiv", "%": "umod"}
 
-    def __init__(self, toks, leaf):
-        self.t, self.i, self.leaf = toks, 0, leaf
+    def __init__(self, toks, leaf, types, ub, pb):
+        self.t, self.i, self.leaf, self.types, self.ub, self.pb = toks, 0, leaf, types, ub, pb
 
-    def peek(self):
-        return self.t[self.i] if self.i < len(self.t) else None
+    def peek(self, k=0):
+        return self.t[self.i + k] if self.i + k < len(self.t) else None
 
     def take(self, x=None):
         v = self.peek()
@@ -131,6 +145,40 @@ class _Expr:
         self.i += 1
         return v
 
+    # ---- types
+    def is_usize(self, ty):
+        return ty == (self.ub, False)
+
+    def usz(self, val):
+        """the value converted to usize (implicit conversion of an operand / of the returned expression)"""
+        term, ty = val
+        if ty == "lit" or self.is_usize(ty):
+            return term
+        if ty == "ptr":
+            raise TErr("the pointer parameter is used without a cast to an integer")
+        return f"(castInt {ty[0]} {'true' if ty[1] else 'false'} {self.ub} {term})"
+
+    def cast(self, val, to):
+        term, ty = val
+        if ty == "ptr":
+            if to[0] != self.pb:
+                raise TErr(f"cast of the pointer to an integer of {to[0]} bits")
+            return (term, to)
+        if ty == "lit":
+            ty = (32, True)           # an int literal
+        if ty == to:
+            return (term, to)
+        return (f"(castInt {ty[0]} {'true' if ty[1] else 'false'} {to[0]} {term})", to)
+
+    def type_at(self, k):
+        """an integer type spelled by the tokens from offset k on: (type, number of tokens) or None"""
+        ws = []
+        while self.peek(k + len(ws)) in TYPE_WORDS:
+            ws.append(self.peek(k + len(ws)))
+        name = " ".join(ws)
+        return (self.types[name], len(ws)) if name in self.types else None
+
+    # ---- grammar
     def parse(self, lvl=0):
         if lvl == len(self.LEVELS):
             return self.unary()
@@ -138,28 +186,54 @@ class _Expr:
         while self.peek() in self.LEVELS[lvl]:
             op = self.take()
             b = self.parse(lvl + 1)
-            if op == "!=":
-                a = f"(if {a} ≠ {b} then 1 else 0)"
-            elif op == "==":
-                a = f"(if {a} = {b} then 1 else 0)"
+            both_lit = a[1] == "lit" and b[1] == "lit"
+            if op in ("<<", ">>"):
+                ok = both_lit or self.is_usize(a[1])        # the result has the (promoted) type of the LEFT operand
             else:
-                a = f"({self.FN[op]} {a} {b})"
+                ok = both_lit or self.is_usize(a[1]) or self.is_usize(b[1])
+            if not ok or "ptr" in (a[1], b[1]):
+                raise TErr(f"`{op}` on operands of types {a[1]} and {b[1]}: not an operation in usize")
+            ty = "lit" if both_lit else (self.ub, False)
+            x, y = self.usz(a), self.usz(b)
+            if op == "!=":
+                a = (f"(if {x} ≠ {y} then 1 else 0)", "lit")
+            elif op == "==":
+                a = (f"(if {x} = {y} then 1 else 0)", "lit")
+            else:
+                a = (f"({self.FN[op]} {x} {y})", ty)
         return a
 
     def unary(self):
         v = self.peek()
         if v == "(":
-            # a cast `(usize)x` or a parenthesised expression
-            if self.i + 2 < len(self.t) and self.t[self.i + 1] == "usize" and self.t[self.i + 2] == ")":
-                self.i += 3
-                return self.leaf(self, "cast")
+            t = self.type_at(1)
+            if t is not None and self.peek(1 + t[1]) == ")":
+                self.i += 2 + t[1]
+                return self.cast(self.unary(), t[0])             # (T)e
             self.take("(")
             e = self.parse()
             self.take(")")
             return e
+        if v in ("static_cast", "reinterpret_cast"):
+            self.take()
+            self.take("<")
+            t = self.type_at(0)
+            if t is None:
+                raise TErr(v + " to a type that is not a known integer type")
+            self.i += t[1]
+            self.take(">")
+            self.take("(")
+            e = self.parse()
+            self.take(")")
+            if v == "reinterpret_cast" and e[1] != "ptr":
+                raise TErr("reinterpret_cast of an integer")
+            return self.cast(e, t[0])
         if v is not None and re.fullmatch(r"\d+[uUlL]*", v):
             self.take()
-            return str(int(re.sub(r"[uUlL]+$", "", v)))
+            n = int(re.sub(r"[uUlL]+$", "", v))
+            if n >= 1 << 31:
+                raise TErr("literal " + v)
+            return (str(n), "lit")
         if v == "sizeof":
             self.take()
             self.take("(")
@@ -167,8 +241,20 @@ class _Expr:
             while self.peek() != ")":
                 ty.append(self.take())
             self.take(")")
-            return self.leaf(self, ("sizeof", " ".join(ty)))
-        return self.leaf(self, "ident")
+            name = " ".join(ty)
+            if name.replace(" ", "") == "void*":
+                return (str(self.pb // 8), (self.ub, False))
+            if name in self.types:
+                return (str(self.types[name][0] // 8), (self.ub, False))
+            raise TErr("sizeof(" + name + ")")
+        t = self.type_at(0)
+        if t is not None and self.peek(t[1]) == "(" and t[1] == 1:
+            self.i += 1                                           # T(e)
+            self.take("(")
+            e = self.parse()
+            self.take(")")
+            return self.cast(e, t[0])
+        return self.leaf(self)
 
 
 def _probe_types(repo, names):
@@ -177,8 +263,8 @@ def _probe_types(repo, names):
     import tempfile
     body = "".join(f'  p<{n}>("{n}");\n' for n in names)
     prog = ('#include <stdio.h>\n#include <nstd/Base.hpp>\n'
-            'template<class T> static void p(const char* n) { printf("%s %d %d\\n", n, (int)sizeof(T) * 8, (int)(T(-1) < T(0))); }\n'
-            'int main() {\n' + body + '  printf("void* %d 0\\n", (int)sizeof(void*) * 8);\n  return 0;\n}\n')
+            'template<class T> static void p(const char* n) { printf("%s|%d|%d\\n", n, (int)sizeof(T) * 8, (int)(T(-1) < T(0))); }\n'
+            'int main() {\n' + body + '  printf("void*|%d|0\\n", (int)sizeof(void*) * 8);\n  return 0;\n}\n')
     with tempfile.TemporaryDirectory(prefix="hashfn-") as d:
         src, exe = Path(d) / "p.cpp", Path(d) / "p"
         src.write_text(prog)
@@ -189,7 +275,7 @@ def _probe_types(repo, names):
         out = subprocess.run([str(exe)], stdout=subprocess.PIPE, text=True).stdout
     res = {}
     for line in out.splitlines():
-        n, w, sg = line.rsplit(" ", 2)
+        n, w, sg = line.split("|")
         res[n] = (int(w), bool(int(sg)))
     return res
 
@@ -208,7 +294,7 @@ def read_hash_functions(repo=None):
     if len(re.findall(r"\busize\s+hash\s*\(", base)) != len(ovl) or not ovl:
         raise TErr(f"Base.hpp: {len(ovl)} of the hash overloads have the form `inline usize hash(T v) {{return E;}}`")
     types = [t.strip() for t, _, _ in ovl if "*" not in t]
-    info = _probe_types(repo, sorted(set(types + ["usize", "char"])))
+    info = _probe_types(repo, sorted(set(types + INT_TYPES)))
     ub = info["usize"][0]
     if info["usize"][1] or ub not in (32, 64):
         raise TErr(f"usize is {info['usize']}")
@@ -218,36 +304,29 @@ def read_hash_functions(repo=None):
     for ty, par, body in ovl:
         ty = ty.strip()
         if "*" in ty:
-            name, w, sg = "ptr", pb, False
+            name, w, sg, pty = "ptr", pb, False, "ptr"
             if not re.fullmatch(r"const\s+void\s*\*", ty):
                 raise TErr("pointer overload of hash with parameter type " + ty)
         else:
             if ty not in info:
                 raise TErr("parameter type " + ty)
             name, (w, sg) = re.sub(r"\W+", "_", ty), info[ty]
+            pty = (w, sg)
         if name in seen:
             raise TErr("two overloads for " + ty)
         seen.add(name)
         used = []
 
-        def leaf(px, kind, par=par, w=w, sg=sg, used=used):
-            if kind == "cast":
-                # `(usize)v`: the parameter converted to usize (sign extension for signed types)
-                v = px.take()
-                if v != par:
-                    raise TErr(f"cast of {v!r} in hash({ty})")
-                used.append(v)
-                return f"(castUsize {w} {'true' if sg else 'false'} {par})"
-            if isinstance(kind, tuple):
-                t = kind[1].replace(" ", "")
-                if t == "void*":
-                    return str(pb // 8)
-                if kind[1] in info:
-                    return str(info[kind[1]][0] // 8)
-                raise TErr("sizeof(" + kind[1] + ")")
-            raise TErr(f"hash({ty}) uses {px.peek()!r} outside a (usize) cast")   # globals, calls, the raw parameter
-        px = _Expr(_tokens(body), leaf)
-        term = px.parse()
+        def leaf(px, par=par, pty=pty, used=used, ty=ty, w=w):
+            v = px.take()
+            if v != par:
+                raise TErr(f"hash({ty}) uses {v!r}")          # globals, calls
+            used.append(v)
+            if pty == "ptr" or pty == (ub, False):
+                return (f"(castInt {w} false {w} {par})", pty)       # already of usize width: the bit pattern itself
+            return (par, pty)
+        px = _Expr(_tokens(body), leaf, info, ub, pb)
+        term = px.usz(px.parse())                             # `return E;` converts E to usize
         if px.peek() is not None or not used:
             raise TErr(f"hash({ty}): cannot translate `{body.strip()}`")
         res["overloads"].append({"name": name, "ctype": ty, "bits": w, "signed": sg, "src": f"inline usize hash({ty} {par}) {{return {body.strip()};}}",
@@ -263,26 +342,22 @@ def read_hash_functions(repo=None):
     reads, lines, ret = [], [], None
     declared = set()
 
-    def sleaf(px, kind):
-        if kind == "cast":
-            raise TErr("cast in hash(const String&)")
-        if isinstance(kind, tuple):
-            raise TErr("sizeof in hash(const String&)")
+    def sleaf(px):
         v = px.take()
         if v == lenv:
-            return "len"
-        if v == accv and px is not None and getattr(px, "allow_acc", False):
-            return accv
+            return ("len", (ub, False))
+        if v == accv and getattr(px, "allow_acc", False):
+            return (accv, (ub, False))
         if v == ptrv:
             # s[E]: E may depend on the length only
             px.take("[")
-            sub = _Expr(px.t, sleaf)
+            sub = _Expr(px.t, sleaf, info, ub, pb)
             sub.i = px.i
-            e = sub.parse()
+            e = sub.usz(sub.parse())
             px.i = sub.i
             px.take("]")
             reads.append(e)
-            return f"(charToUsize (cs.getD {len(reads) - 1} 0))"
+            return (f"(cs.getD {len(reads) - 1} 0)", (8, info["char"][1]))
         raise TErr(f"hash(const String&) uses {v!r}")
     for st in stmts:
         if ret is not None:
@@ -302,9 +377,9 @@ def read_hash_functions(repo=None):
             continue
         m1 = re.fullmatch(r"(\w+)\s*(\*=|\^=|\+=|-=|\|=|&=|>>=|<<=)\s*(.+)", st)
         if m1 and m1.group(1) == accv and accv is not None:
-            px = _Expr(_tokens(m1.group(3)), sleaf)
+            px = _Expr(_tokens(m1.group(3)), sleaf, info, ub, pb)
             px.allow_acc = True
-            rhs = px.parse()
+            rhs = px.usz(px.parse())                          # the right operand is converted to usize
             if px.peek() is not None:
                 raise TErr("cannot translate `" + st + "`")
             lines.append(f"  let {accv} := {_Expr.FN[m1.group(2)[:-1]]} {accv} {rhs}")
@@ -331,8 +406,10 @@ def translate_fn(repo=None):
          "   include/nstd/String.hpp - do not edit -/\nnamespace Nstd.Generated.HashFn\n\n"
          f"/-- `usize` has {ub} bits (probed with the compiler through Base.hpp); `M = 2 ^ {ub}` -/\n"
          f"def usizeBits : Nat := {ub}\ndef M : Nat := {M}\n\n"
-         "/-- `(usize)v` for an argument of a `w`-bit type given by its bit pattern `x`: sign extension for signed types -/\n"
-         f"def castUsize (w : Nat) (signed : Bool) (x : Nat) : Nat :=\n  (if signed = true ∧ 2 ^ (w - 1) ≤ x then {M} + x - 2 ^ w else x) % {M}\n"
+         "/-- conversion of a value of a `w1`-bit integer type (signed: `s1`), given by its bit pattern `x`, to a `w2`-bit type:\n"
+         "    truncation, or sign / zero extension (casts, the usual arithmetic conversions, the conversion of `return`) -/\n"
+         "def castInt (w1 : Nat) (s1 : Bool) (w2 : Nat) (x : Nat) : Nat :=\n"
+         "  (if s1 = true ∧ 2 ^ (w1 - 1) ≤ x ∧ w1 < w2 then 2 ^ w2 + x - 2 ^ w1 else x) % 2 ^ w2\n"
          f"def uadd (a b : Nat) : Nat := (a + b) % {M}\n"
          f"def usub (a b : Nat) : Nat := (a % {M} + {M} - b % {M}) % {M}\n"
          f"def umul (a b : Nat) : Nat := (a * b) % {M}\n"
@@ -343,8 +420,8 @@ def translate_fn(repo=None):
          f"def uor (a b : Nat) : Nat := (a % {M}) ||| (b % {M})\n"
          f"def ushr (a b : Nat) : Nat := (a % {M}) >>> (b % {M})\n"
          f"def ushl (a b : Nat) : Nat := ((a % {M}) <<< (b % {M})) % {M}\n"
-         f"/-- a `char` (signed: {str(k['char_signed']).lower()}) used as an operand of usize arithmetic -/\n"
-         f"def charToUsize (c : Nat) : Nat := castUsize 8 {'true' if k['char_signed'] else 'false'} c\n\n")
+         f"/-- `char` is {'signed' if k['char_signed'] else 'unsigned'} on this target -/\n"
+         f"def charSigned : Bool := {'true' if k['char_signed'] else 'false'}\n\n")
     for o in k["overloads"]:
         t += f"/-- `{o['src']}`   ({o['ctype']}: {o['bits']} bit, {'signed' if o['signed'] else 'unsigned'}) -/\n"
         t += f"def hash_{o['name']} ({o['param']} : Nat) : Nat := {o['lean']}\n\n"
